@@ -459,4 +459,425 @@ theorem sim_paragraph (k : Int) {ts ts' : List BRule} (hs : Sims k ts ts') (ws :
       rw [hsr.parentType]
       exact this
 
+/-! ### the loop -/
+
+theorem skipEmptyLines_sim {k pre s s'} (h : SR k pre s s') : ∀ (fuel from_ : Nat),
+    skipEmptyLines s' fuel from_ = skipEmptyLines s fuel from_ := by
+  intro fuel
+  induction fuel with
+  | zero => intro f; rfl
+  | succ n ih =>
+    intro f
+    simp only [skipEmptyLines, h.lineMax]
+    split
+    · cases hq : s.lines[f]? with
+      | none =>
+        have : s'.lines[f]? = none := by
+          rw [List.getElem?_eq_none_iff] at hq ⊢; rw [h.lines.length]; exact hq
+        simp only [this]; exact ih _
+      | some l =>
+        obtain ⟨l', h1, h2⟩ := h.lines.get f l hq
+        simp only [h1, zb_empty h2]
+        split
+        · exact ih _
+        · rfl
+    · rfl
+
+theorem isEmpty_sim {k pre s s'} (h : SR k pre s s') (i : Int) : s'.isEmpty i = s.isEmpty i := by
+  unfold BState.isEmpty idx
+  rw [h.lines.length]
+  simp only []
+  generalize (if i < 0 then i + (s.lines.length : Int) else i) = j
+  by_cases hj : j < 0
+  · simp only [hj, if_true]
+  · simp only [hj, if_false]
+    cases hq : s.lines[j.toNat]? with
+    | none =>
+      have : s'.lines[j.toNat]? = none := by
+        rw [List.getElem?_eq_none_iff] at hq ⊢; rw [h.lines.length]; exact hq
+      simp only [this]
+    | some l =>
+      obtain ⟨l', h1, h2⟩ := h.lines.get _ l hq
+      simp only [h1, zb_empty h2]
+
+theorem runBlockChain_sim {k} {rs rs' : List BRule} (hs : Sims k rs rs') :
+    ∀ {pre s s'} (line endLine : Nat) (b : Bool) (s1 : BState), SR k pre s s' → runBlockChain rs s line endLine = .ok (b, s1) →
+      ∃ s1', runBlockChain rs' s' line endLine = .ok (b, s1') ∧ SR k pre s1 s1' := by
+  induction hs with
+  | nil =>
+    intro pre s s' line endLine b s1 hsr h
+    simp only [runBlockChain, Except.ok.injEq, Prod.mk.injEq] at h
+    obtain ⟨h1, h2⟩ := h; subst h1; subst h2
+    exact ⟨_, rfl, hsr⟩
+  | @cons r r' rs rs' hr _ ih =>
+    intro pre s s' line endLine b s1 hsr h
+    simp only [runBlockChain] at h ⊢
+    cases hq : r s line endLine false with
+    | error e => rw [hq] at h; cases h
+    | ok v =>
+      obtain ⟨m, t⟩ := v
+      rw [hq] at h
+      obtain ⟨t', hq', hsr'⟩ := hr pre s s' line endLine false m t hsr hq
+      rw [hq']
+      cases m with
+      | true =>
+        simp only [Except.ok.injEq, Prod.mk.injEq] at h
+        obtain ⟨h1, h2⟩ := h; subst h1; subst h2
+        exact ⟨_, rfl, hsr'⟩
+      | false => exact ih line endLine b s1 hsr' h
+
+theorem SR.setTight {k pre s s'} (h : SR k pre s s') (b : Bool) : SR k pre { s with tight := b } { s' with tight := b } :=
+  ⟨h.lines, h.notab, h.line, h.lineMax, h.blkIndent, h.level, rfl, h.parentType, h.listIndent, h.tokens⟩
+
+theorem blockLoop_sim {k} {rules rules' : List BRule} (hs : Sims k rules rules') (mn : Int) (endLine : Nat) :
+    ∀ (fuel line : Nat) (he : Bool) {pre s s'} (t : BState), SR k pre s s' → blockLoop rules mn endLine fuel line he s = .ok t →
+      ∃ t', blockLoop rules' (mn + k) endLine fuel line he s' = .ok t' ∧ SR k pre t t' := by
+  intro fuel
+  induction fuel with
+  | zero =>
+    intro line he pre s s' t hsr h
+    simp only [blockLoop] at h ⊢
+    split at h
+    · cases h
+    · rename_i hn; simp only [hn, ↓reduceIte]
+      simp only [Except.ok.injEq] at h; subst h; exact ⟨_, rfl, hsr⟩
+  | succ n ih =>
+    intro line he pre s s' t hsr h
+    simp only [blockLoop] at h ⊢
+    split at h
+    · rename_i hlt
+      have e0 : skipEmptyLines s' (s'.lineMax + 1) line = skipEmptyLines s (s.lineMax + 1) line := by
+        rw [hsr.lineMax, skipEmptyLines_sim hsr]
+      simp only [hlt, ↓reduceIte, e0]
+      generalize skipEmptyLines s (s.lineMax + 1) line = line1 at h ⊢
+      have hsr1 := hsr.setLineNo line1
+      split at h
+      · rename_i h1; simp only [h1, ↓reduceIte]
+        simp only [Except.ok.injEq] at h; subst h; exact ⟨_, rfl, hsr1⟩
+      · rename_i h1
+        simp only [h1, ↓reduceIte]
+        cases hq : s.lines[line1]? with
+        | none => simp only [hq] at h; cases h
+        | some l =>
+          simp only [hq] at h
+          obtain ⟨l', hq', hz⟩ := hsr.lines.get line1 l hq
+          have c1 : (l'.sCount < s'.blkIndent) = (l.sCount < s.blkIndent) := by rw [(zb_eq hz).1, hsr.blkIndent]
+          have c2 : (s'.level ≥ mn + k) = (s.level ≥ mn) := by rw [hsr.level]; exact propext ⟨fun h => by omega, fun h => by omega⟩
+          simp only [hq', c1, c2]
+          split at h
+          · rename_i h2; simp only [h2, ↓reduceIte]
+            simp only [Except.ok.injEq] at h; subst h; exact ⟨_, rfl, hsr1⟩
+          · rename_i h2
+            simp only [h2, ↓reduceIte]
+            split at h
+            · rename_i h3
+              simp only [h3, ↓reduceIte]
+              simp only [Except.ok.injEq] at h; subst h; exact ⟨_, rfl, hsr.setLineNo endLine⟩
+            · rename_i h3
+              simp only [h3, ↓reduceIte]
+              cases hc : runBlockChain rules { s with line := line1 } line1 endLine with
+              | error e => rw [hc] at h; cases h
+              | ok v =>
+                obtain ⟨b, s2⟩ := v
+                rw [hc] at h
+                obtain ⟨s2', hc', hsr2⟩ := runBlockChain_sim hs line1 endLine b s2 hsr1 hc
+                rw [hc']
+                simp only at h ⊢
+                rcases s2' with ⟨lines', ln', lm', bi', lv', tg', pt', tk', li'⟩
+                have hln : ln' = s2.line := hsr2.line
+                subst hln
+                have hsr3 := hsr2.setTight (!he)
+                split at h
+                · cases h
+                · rename_i h4
+                  simp only [h4, ↓reduceIte, isEmpty_sim hsr3]
+                  cases he1 : (if (s2.line : Int) - 1 < ↑endLine then ({ s2 with tight := !he } : BState).isEmpty (↑s2.line - 1) else Except.ok false) with
+                  | error e => rw [he1] at h; cases h
+                  | ok e1 =>
+                    rw [he1] at h
+                    simp only at h ⊢
+                    split at h
+                    · rename_i h5
+                      simp only [h5, ↓reduceIte]
+                      cases he2 : ({ s2 with tight := !he } : BState).isEmpty ↑s2.line with
+                      | error e => rw [he2] at h; cases h
+                      | ok e2 =>
+                        rw [he2] at h
+                        simp only at h ⊢
+                        split at h
+                        · rename_i h6; simp only [h6, ↓reduceIte]
+                          exact ih _ _ _ (hsr3.setLineNo (s2.line + 1)) h
+                        · rename_i h6; simp only [h6, ↓reduceIte]
+                          exact ih _ _ _ hsr3 h
+                    · rename_i h5
+                      simp only [h5, ↓reduceIte]
+                      exact ih _ _ _ hsr3 h
+    · rename_i hlt
+      simp only [hlt, ↓reduceIte]
+      simp only [Except.ok.injEq] at h; subst h; exact ⟨_, rfl, hsr⟩
+
+/-! ### the quote rule -/
+
+theorem qLoop_notab (bs bs' : Nat) (adj : Int) : ∀ (text : List Char) (off : Int) (n : Nat), '\t' ∉ text →
+    qLoop bs adj off text n = qLoop bs' adj off text n := by
+  intro text
+  induction text with
+  | nil => intro off n _; rfl
+  | cons c cs ih =>
+    intro off n hnt
+    have hc : c ≠ '\t' := fun e => hnt (by simp [e])
+    have hcs : '\t' ∉ cs := fun e => hnt (by simp [e])
+    simp only [qLoop, hc, if_false]
+    split
+    · exact ih _ _ hcs
+    · rfl
+
+theorem mem_drop_of {α} {a : α} {l : List α} {n : Nat} (h : a ∈ l.drop n) : a ∈ l := List.mem_of_mem_drop h
+
+theorem quoteHead_notab (bs bs' : Nat) (sc : Int) (after : List Char) (h : '\t' ∉ after) :
+    quoteHead bs sc after = quoteHead bs' sc after := by
+  unfold quoteHead
+  split
+  · rfl
+  · rename_i tail; exact absurd (by simp) h
+  · rfl
+
+theorem quoteStrip_sim {l l' : BLine} (hz : zb l' = zb l) (hnt : '\t' ∉ l.text) :
+    zb (quoteStrip l').1 = zb (quoteStrip l).1 ∧ (quoteStrip l').2 = (quoteStrip l).2 ∧ '\t' ∉ (quoteStrip l).1.text := by
+  obtain ⟨hsc, htx, hts, hlf⟩ := zb_eq hz
+  have hb : l'.body = l.body := zb_body hz
+  have hnb : '\t' ∉ l.body := fun h => hnt (mem_drop_of h)
+  have hna : '\t' ∉ List.drop 1 l.body := fun h => hnb (mem_drop_of h)
+  simp only [quoteStrip, hb, hsc, hlf, quoteHead_notab l'.bs l.bs l.sCount _ hna]
+  have hnd : '\t' ∉ List.drop (quoteHead l.bs l.sCount (List.drop 1 l.body)).1 (List.drop 1 l.body) := fun h => hna (mem_drop_of h)
+  rw [qLoop_notab l'.bs l.bs _ _ _ 0 hnd]
+  exact ⟨by simp [zb], rfl, hnd⟩
+
+theorem LR.set {ls ls' : List BLine} (h : LR ls ls') (i : Nat) {a a' : BLine} (hz : zb a' = zb a) : LR (ls.set i a) (ls'.set i a') := by
+  unfold LR at *
+  rw [List.map_set, List.map_set, h, hz]
+
+theorem NoTab.set {ls : List BLine} (h : NoTab ls) (i : Nat) {a : BLine} (ha : '\t' ∉ a.text) : NoTab (ls.set i a) := by
+  intro l hl
+  rcases List.mem_or_eq_of_mem_set hl with h1 | h1
+  · exact h l h1
+  · subst h1; exact ha
+
+theorem SR.setLine {k pre s s'} (h : SR k pre s s') (i : Nat) {a a' : BLine} (hz : zb a' = zb a) (ha : '\t' ∉ a.text) :
+    SR k pre (s.setLine i a) (s'.setLine i a') :=
+  ⟨h.lines.set i hz, h.notab.set i ha, h.line, h.lineMax, h.blkIndent, h.level, h.tight, h.parentType, h.listIndent, h.tokens⟩
+
+theorem SR.setLineMax {k pre s s'} (h : SR k pre s s') (n : Nat) : SR k pre { s with lineMax := n } { s' with lineMax := n } :=
+  ⟨h.lines, h.notab, h.line, rfl, h.blkIndent, h.level, h.tight, h.parentType, h.listIndent, h.tokens⟩
+
+theorem SR.setBlk {k pre s s'} (h : SR k pre s s') (n : Int) : SR k pre { s with blkIndent := n } { s' with blkIndent := n } :=
+  ⟨h.lines, h.notab, h.line, h.lineMax, rfl, h.level, h.tight, h.parentType, h.listIndent, h.tokens⟩
+
+/-- saved line entries: equal up to `bsCount`, tab-free -/
+def LRs (sv sv' : List BLine) : Prop := sv.map zb = sv'.map zb ∧ NoTab sv
+
+theorem LRs.snoc {sv sv' : List BLine} (h : LRs sv sv') {a a' : BLine} (hz : zb a' = zb a) (ha : '\t' ∉ a.text) :
+    LRs (sv ++ [a]) (sv' ++ [a']) := by
+  refine ⟨by simp [h.1, hz], ?_⟩
+  intro l hl
+  rw [List.mem_append] at hl
+  rcases hl with hl | hl
+  · exact h.2 l hl
+  · simp at hl; subst hl; exact ha
+
+theorem quoteScan_sim {k} {ts ts' : List BRule} (hs : Sims k ts ts') (endLine : Nat) :
+    ∀ (fuel next : Nat) (le : Bool) {pre s s'} (sv sv' : List BLine) (nx : Nat) (s2 : BState) (sv2 : List BLine),
+      SR k pre s s' → LRs sv sv' → quoteScan ts endLine fuel next le s sv = .ok (nx, s2, sv2) →
+      ∃ s2' sv2', quoteScan ts' endLine fuel next le s' sv' = .ok (nx, s2', sv2') ∧ SR k pre s2 s2' ∧ LRs sv2 sv2' := by
+  intro fuel
+  induction fuel with
+  | zero => intro next le pre s s' sv sv' nx s2 sv2 _ _ h; simp [quoteScan] at h
+  | succ n ih =>
+    intro next le pre s s' sv sv' nx s2 sv2 hsr hsv h
+    simp only [quoteScan] at h ⊢
+    have fin : ∀ {x : BState} {x' : BState} {y y' : List BLine}, SR k pre x x' → LRs y y' →
+        (Except.ok (next, x, y) : Except PyErr (Nat × BState × List BLine)) = .ok (nx, s2, sv2) →
+        ∃ s2' sv2', (Except.ok (next, x', y') : Except PyErr (Nat × BState × List BLine)) = .ok (nx, s2', sv2') ∧ SR k pre s2 s2' ∧ LRs sv2 sv2' := by
+      intro x x' y y' hx hy he
+      simp only [Except.ok.injEq, Prod.mk.injEq] at he
+      obtain ⟨e1, e2, e3⟩ := he; subst e1; subst e2; subst e3
+      exact ⟨_, _, rfl, hx, hy⟩
+    split at h
+    · rename_i hlt
+      simp only [hlt, ↓reduceIte]
+      obtain ⟨l, hg, h⟩ := getL_cases h
+      obtain ⟨l', hg', hz, hnt⟩ := getL_sim hsr next l hg
+      have c1 : (l'.sCount < s'.blkIndent) = (l.sCount < s.blkIndent) := by rw [(zb_eq hz).1, hsr.blkIndent]
+      simp only [hg', zb_empty hz, zb_body hz, c1]
+      split at h
+      · rename_i h1; simp only [h1, ↓reduceIte]; exact fin hsr hsv h
+      · rename_i h1
+        simp only [h1, ↓reduceIte]
+        split at h
+        · rename_i h2
+          simp only [h2, ↓reduceIte]
+          obtain ⟨q1, q2, q3⟩ := quoteStrip_sim hz hnt
+          rw [q2]
+          exact ih _ _ _ _ _ _ _ (hsr.setLine next q1 q3) (hsv.snoc hz hnt) h
+        · rename_i h2
+          simp only [h2, ↓reduceIte]
+          split at h
+          · rename_i h3; simp only [h3, ↓reduceIte]; exact fin hsr hsv h
+          · rename_i h3
+            have hle : le = false := by simpa using h3
+            subst hle
+            simp only [Bool.false_eq_true, ↓reduceIte]
+            cases hq : runTerminators ts s next endLine with
+            | error e => rw [hq] at h; cases h
+            | ok v =>
+              obtain ⟨b, s1⟩ := v
+              rw [hq] at h
+              obtain ⟨s1', hq', hsr1⟩ := runTerminators_sim hs next endLine b s1 hsr hq
+              rw [hq']
+              cases b with
+              | true =>
+                simp only at h ⊢
+                have c2 : (s1'.blkIndent != 0) = (s1.blkIndent != 0) := by rw [hsr1.blkIndent]
+                simp only [c2]
+                split at h
+                · rename_i h4
+                  simp only [h4, ↓reduceIte]
+                  obtain ⟨l1, hg1, h⟩ := getL_cases h
+                  obtain ⟨l1', hg1', hz1, hnt1⟩ := getL_sim hsr1 next l1 hg1
+                  simp only [hg1']
+                  have hz2 : zb ({ l1' with sCount := l1'.sCount - s1'.blkIndent } : BLine) = zb { l1 with sCount := l1.sCount - s1.blkIndent } := by
+                    obtain ⟨a1, a2, a3, a4⟩ := zb_eq hz1
+                    simp [zb, a1, a2, a3, a4, hsr1.blkIndent]
+                  exact fin ((hsr1.setLineMax next).setLine next hz2 hnt1) (hsv.snoc hz1 hnt1) h
+                · rename_i h4
+                  simp only [h4, ↓reduceIte]
+                  exact fin (hsr1.setLineMax next) hsv h
+              | false =>
+                simp only at h ⊢
+                obtain ⟨l1, hg1, h⟩ := getL_cases h
+                obtain ⟨l1', hg1', hz1, hnt1⟩ := getL_sim hsr1 next l1 hg1
+                simp only [hg1']
+                have hz2 : zb ({ l1' with sCount := -1 } : BLine) = zb { l1 with sCount := -1 } := by
+                  obtain ⟨a1, a2, a3, a4⟩ := zb_eq hz1
+                  simp [zb, a2, a3, a4]
+                exact ih _ _ _ _ _ _ _ (hsr1.setLine next hz2 hnt1) (hsv.snoc hz1 hnt1) h
+    · rename_i hlt; simp only [hlt, ↓reduceIte]; exact fin hsr hsv h
+
+theorem restoreLines_sim {k pre} : ∀ (sv sv' : List BLine) (s s' : BState) (start : Nat), SR k pre s s' → LRs sv sv' →
+    SR k pre (restoreLines s start sv) (restoreLines s' start sv') := by
+  intro sv
+  induction sv with
+  | nil =>
+    intro sv' s s' start hsr hsv
+    have : sv' = [] := by
+      have := congrArg List.length hsv.1; simp at this; exact List.eq_nil_of_length_eq_zero this.symm
+    subst this; exact hsr
+  | cons a rest ih =>
+    intro sv' s s' start hsr hsv
+    cases sv' with
+    | nil => have := congrArg List.length hsv.1; simp at this
+    | cons a' rest' =>
+      have hm := hsv.1
+      simp only [List.map_cons, List.cons.injEq] at hm
+      simp only [restoreLines]
+      exact ih rest' _ _ _ (hsr.setLine start hm.1.symm (hsv.2 a (by simp))) ⟨hm.2, fun l hl => hsv.2 l (by simp [hl])⟩
+
+@[simp] theorem shift_setMap (k : Int) (t : Tok) (m) : (t.setMap m).shift k = (t.shift k).setMap m := by cases t; rfl
+
+theorem modify_sim (k : Int) (pre ts : List Tok) (i : Nat) (m : Option (Nat × Nat)) :
+    (pre ++ ts.map (Tok.shift k)).modify (pre.length + i) (fun t => t.setMap m) = pre ++ (ts.modify i (fun t => t.setMap m)).map (Tok.shift k) := by
+  induction pre with
+  | nil =>
+    simp only [List.nil_append, List.length_nil, Nat.zero_add]
+    induction ts generalizing i with
+    | nil => simp
+    | cons t rest ih =>
+      cases i with
+      | zero => simp
+      | succ j => simp [ih]
+  | cons p ps ih =>
+    simp only [List.cons_append, List.length_cons]
+    have : ps.length + 1 + i = (ps.length + i) + 1 := by omega
+    rw [this, List.modify_succ_cons, ih]
+
+/-- the quote rule's bookkeeping after the nested run: `lineMax`, `parentType`, the map patch of the opening token -/
+def finish6 (s5 : BState) (lm : Nat) (pt : String) (ntok line : Nat) : BState :=
+  { s5 with lineMax := lm, parentType := pt, tokens := s5.tokens.modify ntok (fun t => t.setMap (some (line, s5.line))) }
+
+theorem SR.finish6 {k pre s5 s5'} (h : SR k pre s5 s5') (lm lm' : Nat) (pt pt' : String) (ntok line : Nat) (hlm : lm' = lm) (hpt : pt' = pt) :
+    SR k pre (finish6 s5 lm pt ntok line) (finish6 s5' lm' pt' (pre.length + ntok) line) := by
+  refine ⟨h.lines, h.notab, h.line, hlm, h.blkIndent, h.level, h.tight, hpt, h.listIndent, ?_⟩
+  show List.modify _ _ _ = _
+  rw [h.tokens, h.line, modify_sim]
+  rfl
+
+theorem blockTokenize_sim {k} {rules rules' : List BRule} (hs : Sims k rules rules') (mn : Int) {pre s s'} (a b : Nat) (t : BState)
+    (hsr : SR k pre s s') (h : blockTokenize rules mn s a b = .ok t) :
+    ∃ t', blockTokenize rules' (mn + k) s' a b = .ok t' ∧ SR k pre t t' :=
+  blockLoop_sim hs mn b _ a false t hsr h
+
+theorem sim_quote (k : Int) (codeOn : Bool) {ts ts' inner inner' : List BRule} (hts : Sims k ts ts') (hin : Sims k inner inner') (mn : Int) :
+    Sim k (ruleBlockquote codeOn ts inner mn) (ruleBlockquote codeOn ts' inner' (mn + k)) := by
+  intro pre s s' line endLine silent m t hsr h
+  unfold ruleBlockquote at h
+  obtain ⟨l, hg, h⟩ := getL_cases h
+  obtain ⟨l', hg', hz, hnt⟩ := getL_sim hsr line l hg
+  simp only [ruleBlockquote, hg', isCode_sim hsr codeOn hz, zb_body hz]
+  cases hc : isCodeLine codeOn s l <;> simp only [hc, ↓reduceIte, Bool.false_eq_true] at h ⊢
+  · cases hh : (!l.body.head? == some '>') <;> simp only [hh, ↓reduceIte, Bool.false_eq_true] at h ⊢
+    · cases silent <;> simp only [↓reduceIte, Bool.false_eq_true] at h ⊢
+      · -- the real work
+        obtain ⟨q1, q2, q3⟩ := quoteStrip_sim hz hnt
+        have hsr1 := ((hsr.setLine line q1 q3).setParent "blockquote")
+        cases hq : quoteScan ts endLine (endLine - line + 1) (line + 1) (quoteStrip l).2
+            { (s.setLine line (quoteStrip l).1) with parentType := "blockquote" } [l] with
+        | error e => rw [hq] at h; cases h
+        | ok v =>
+          obtain ⟨next, s2, saved⟩ := v
+          rw [hq] at h
+          obtain ⟨s2', saved', hq', hsr2, hsv2⟩ := quoteScan_sim hts endLine _ _ _ [l] [l'] next s2 saved hsr1
+            ⟨by simp [hz], fun x hx => by simp at hx; subst hx; exact hnt⟩ hq
+          rw [q2, hq']
+          simp only at h ⊢
+          have hsr3 := ((hsr2.setBlk 0).push "blockquote_open" "blockquote" 1 (some (line, 0)) none "" ">" "")
+          cases hr : blockTokenize inner mn (({ s2 with blkIndent := 0 }).pushFull "blockquote_open" "blockquote" 1 (some (line, 0)) none "" ">" "") line next with
+          | error e => rw [hr] at h; cases h
+          | ok s4 =>
+            rw [hr] at h
+            obtain ⟨s4', hr', hsr4⟩ := blockTokenize_sim hin mn line next s4 hsr3 hr
+            rw [hr']
+            simp only [Except.ok.injEq, Prod.mk.injEq] at h ⊢
+            obtain ⟨e1, e2⟩ := h; subst e1; subst e2
+            refine ⟨_, ⟨rfl, rfl⟩, ?_⟩
+            have hsr5 := hsr4.push "blockquote_close" "blockquote" (-1) none none "" ">" ""
+            have hlen : s2'.tokens.length = pre.length + s2.tokens.length := by rw [hsr2.tokens]; simp
+            have hsr6 := hsr5.finish6 s.lineMax s'.lineMax s.parentType s'.parentType s2.tokens.length line hsr.lineMax hsr.parentType
+            rw [← hlen] at hsr6
+            have hsr7 := restoreLines_sim saved saved' _ _ line hsr6 hsv2
+            have hfin := hsr7.setBlk s2.blkIndent
+            rw [hsr2.blkIndent]
+            exact hfin
+      · sim_same h hsr
+    · sim_same h hsr
+  · sim_same h hsr
+
+/-! ### the chains simulate each other across a shift of level and `maxNesting` -/
+
+theorem qTerminators_sims (k : Int) (c : MiniCfg) (ws : List Nat) (mn : Int) :
+    Sims k (qTerminators c ws mn) (qTerminators c ws (mn + k)) := by
+  unfold qTerminators
+  exact (((Sims.opt c.fence (sim_fence k c.code)).append (.cons (sim_quote k c.code .nil .nil mn) .nil)).append
+    (Sims.opt c.hr (sim_hr k c.code))).append (Sims.opt c.heading (sim_heading k c.code ws))
+
+theorem qChain_sims (k : Int) (c : MiniCfg) (ws : List Nat) (mn : Int) : ∀ d : Nat,
+    Sims k (qChain c ws mn d) (qChain c ws (mn + k) d) := by
+  intro d
+  induction d with
+  | zero => exact .nil
+  | succ d ih =>
+    unfold qChain
+    exact (((((Sims.opt c.code (sim_code k c.code)).append (Sims.opt c.fence (sim_fence k c.code))).append
+      (.cons (sim_quote k c.code (qTerminators_sims k c ws mn) ih mn) .nil)).append (Sims.opt c.hr (sim_hr k c.code))).append
+      (Sims.opt c.heading (sim_heading k c.code ws))).append (.cons (sim_paragraph k (qTerminators_sims k c ws mn) ws) .nil)
+
 end MdIt.C06
